@@ -106,3 +106,165 @@ class Grammar:
         if all(b['k'] == 'str' for b in br):
             return [b['v'] for b in br]
         return None
+
+
+    # ---- re-parsing analysis (pest has no memoisation: a nonterminal parsed in a failed alternative is parsed again)
+    def reaches(self):
+        """rule -> set of rules reachable through references"""
+        if getattr(self, '_reach', None) is not None:
+            return self._reach
+        direct = {}
+
+        def refs(e, acc):
+            if e['k'] == 'ident':
+                if e['v'] in self.rules:
+                    acc.add(e['v'])
+                return
+            for key in ('a', 'b', 'e'):
+                if key in e and isinstance(e[key], dict):
+                    refs(e[key], acc)
+        for n, r in self.rules.items():
+            s = set()
+            refs(r['expr'], s)
+            direct[n] = s
+        reach = {n: set(s) for n, s in direct.items()}
+        changed = True
+        while changed:
+            changed = False
+            for n in reach:
+                new = set(reach[n])
+                for m in list(reach[n]):
+                    new |= reach.get(m, set())
+                if new != reach[n]:
+                    reach[n] = new
+                    changed = True
+        self._reach = reach
+        return reach
+
+    def prefixes(self, e, length=3, depth=4):
+        """set of symbol tuples (literals as ('lit', s), rules as ('rule', name)) of length <= `length` with which a match of
+        e can begin; a rule reference appears both unexpanded and (up to `depth`) expanded; optional parts both ways"""
+        def cat(xs, ys):
+            out = set()
+            for x in xs:
+                if len(x) >= length:
+                    out.add(x[:length])
+                    continue
+                for y in ys:
+                    out.add((x + y)[:length])
+            return out
+
+        def go(e, d):
+            k = e['k']
+            if k in ('str', 'insens'):
+                return {(('lit', e['v']),)}
+            if k == 'range':
+                return {(('lit', '%s..%s' % (e.get('a'), e.get('b'))),)}
+            if k == 'ident':
+                n = e['v']
+                if n not in self.rules:
+                    return {(('builtin', n),)}
+                out = set()
+                if not self.silent(n):
+                    out.add((('rule', n),))
+                if d > 0:
+                    out |= go(self.rules[n]['expr'], d - 1)
+                elif self.silent(n):
+                    out.add((('rule', n),))
+                return out
+            if k == 'seq':
+                return cat(go(e['a'], d), go(e['b'], d))
+            if k == 'choice':
+                return go(e['a'], d) | go(e['b'], d)
+            if k in ('opt', 'rep', 'repmax'):
+                return go(e['e'], d) | {()}
+            if k in ('reponce', 'push', 'repexact', 'repmin', 'repminmax'):
+                return go(e['e'], d)
+            if k in ('pospred', 'negpred'):
+                return {()}
+            return {()}
+        return {p for p in go(e, depth)}
+
+    def reparse_conflicts(self, length=3, depth=4):
+        """[(rule, i, j, prefix)] : in the ordered choice of `rule`, alternatives i < j can both begin with `prefix`, which
+        contains a nonterminal that can (transitively) contain `rule` itself.  When alternative i fails after that
+        nonterminal, alternative j parses it again: the work doubles with every level of nesting."""
+        reach = self.reaches()
+        out = []
+        for name in self.order:
+            r = self.rules[name]
+            br = self.branches(r['expr'])
+            if len(br) < 2:
+                continue
+            pres = [self.prefixes(b, length, depth) for b in br]
+            for i in range(len(br)):
+                for j in range(i + 1, len(br)):
+                    common = set()
+                    for p in pres[i]:
+                        for q in pres[j]:
+                            m = 0
+                            while m < len(p) and m < len(q) and p[m] == q[m]:
+                                m += 1
+                            if m >= 2:
+                                common.add(p[:m])
+                    for c in sorted(common):
+                        rec = [s[1] for s in c if s[0] == 'rule' and (name in reach.get(s[1], ()) or s[1] == name)]
+                        # the prefix must *start* with a terminal, otherwise i and j are the same nonterminal start (FIRST overlap
+                        # on a nonterminal is ordinary ordered choice) -- and contain a recursive nonterminal after it
+                        if rec and c[0][0] == 'lit':
+                            out.append((name, i, j, c, rec))
+        # keep the longest prefix per (rule, i, j)
+        best = {}
+        for name, i, j, c, rec in out:
+            k = (name, i, j)
+            if k not in best or len(c) > len(best[k][0]):
+                best[k] = (c, rec)
+        return [(k[0], k[1], k[2], v[0], v[1]) for k, v in sorted(best.items())]
+
+
+    def repetition_reparse(self):
+        """[(rule, X)] : `(X ~ sep)* ~ X ...` -- the repetition's last, failing attempt parses X and the following element
+        parses the same X again; with X able to contain `rule` the work doubles with every level of nesting"""
+        reach = self.reaches()
+        out = []
+
+        def first_rule(e):
+            ps = self.prefixes(e, length=1, depth=0)
+            return {p[0][1] for p in ps if p and p[0][0] == 'rule'}
+
+        def walk(name, e):
+            k = e['k']
+            if k == 'seq':
+                # flatten a ~ b ~ c into [a, b, c]
+                items = []
+
+                def flat(x):
+                    if x['k'] == 'seq':
+                        flat(x['a'])
+                        flat(x['b'])
+                    else:
+                        items.append(x)
+                flat(e)
+                # pest's optimizer (pest_meta::optimizer::lister) rewrites exactly the node shape Seq(Rep(Seq(X, rest)), X)
+                # into X ~ (rest ~ X)*; with the left-associative `~` that is only the case when the repetition is the
+                # first item of the sequence and X is the whole second item
+                listed = e['a']['k'] == 'rep' and e['a']['e']['k'] == 'seq' and e['a']['e']['a'] == e['b']
+                for i in range(len(items) - 1):
+                    a, b = items[i], items[i + 1]
+                    if listed and i == 0 and len(items) == 2:
+                        continue
+                    if a['k'] in ('rep', 'reponce', 'repmin', 'repmax', 'repminmax', 'opt') and a['e']['k'] == 'seq':
+                        fa = first_rule(a['e'])
+                        fb = first_rule(b)
+                        for x in sorted(fa & fb):
+                            if name in reach.get(x, ()) or x == name:
+                                out.append((name, x))
+                for it in items:
+                    walk(name, it)
+                return
+            for key in ('a', 'b', 'e'):
+                if key in e and isinstance(e[key], dict):
+                    walk(name, e[key])
+        for n in self.order:
+            walk(n, self.rules[n]['expr'])
+        return sorted(set(out))
